@@ -38,6 +38,9 @@ pub enum RuntimeErrorKind {
     IndexOutOfBounds,
     /// Type mismatch error that can't be caught in semantic analysis
     TypeMismatch,
+    /// A built-in method got the wrong number of arguments. The checker validates arity when
+    /// it knows the receiver's type; for dynamically typed receivers only the runtime can.
+    ArgumentCount,
     /// A variable was used before its `make` statement ran. The checker resolves names
     /// lexically, but a function may be called above the declaration it captures.
     UseBeforeDeclaration,
@@ -59,6 +62,7 @@ impl AsStr for RuntimeErrorKind {
             RuntimeErrorKind::StackOverflow => "Stack overflow",
             RuntimeErrorKind::IndexOutOfBounds => "Index out of bounds",
             RuntimeErrorKind::TypeMismatch => "Type mismatch",
+            RuntimeErrorKind::ArgumentCount => "Invalid parameter count",
             RuntimeErrorKind::UseBeforeDeclaration => "Variable used before declaration",
             RuntimeErrorKind::InvalidIndex => "Invalid index",
             RuntimeErrorKind::ProcessUnsupported => "Unsupported process execution",
@@ -112,6 +116,22 @@ impl RuntimeError {
 
     fn use_before_declaration(span: Span) -> Self {
         Self::new(RuntimeErrorKind::UseBeforeDeclaration, span)
+    }
+
+    fn check_method_arity(
+        field: &str,
+        expected: usize,
+        found: usize,
+        span: Span,
+    ) -> Result<(), Self> {
+        if expected == found {
+            return Ok(());
+        }
+        let message = format!(
+            "Method `{field}` dey expect {expected} argument{} but na {found} dey here",
+            if expected == 1 { "" } else { "s" },
+        );
+        Err(Self::new_with_extras(RuntimeErrorKind::ArgumentCount, span, message, ""))
     }
 }
 
@@ -418,6 +438,10 @@ impl<'a> Runtime<'a> {
                             err.name,
                             err.ty
                         )),
+                    }],
+                    RuntimeErrorKind::ArgumentCount => vec![Label {
+                        span: err.span,
+                        message: ArenaCow::Owned(arena_format!(self.arena, "{}", err.name)),
                     }],
                     RuntimeErrorKind::UseBeforeDeclaration => vec![Label {
                         span: err.span,
@@ -945,18 +969,39 @@ impl<'a> Runtime<'a> {
     ) -> Result<Value<'a>, RuntimeError> {
         // Mutable methods stay name-directed so lvalue receivers and index expressions are
         // evaluated only on the mutation path.
+        // The static checker validates arity only when it knows the receiver's type, so every
+        // dispatch below re-checks it before touching `args`.
         if let Some(array_builtin) = ArrayBuiltin::from_name(field)
             && array_builtin.requires_mut_receiver()
         {
+            RuntimeError::check_method_arity(field, array_builtin.arity(), args.args.len(), span)?;
             return self.eval_array_member_call_mut(object, array_builtin, field, args, span);
         }
         if let Some(command_builtin) = ProcessCommandBuiltin::from_name(field)
             && command_builtin.requires_mut_receiver()
         {
+            RuntimeError::check_method_arity(field, command_builtin.arity(), args.args.len(), span)?;
             return self.eval_process_command_call_mut(object, command_builtin, field, args, span);
         }
 
         let receiver = self.eval_expr(object)?;
+        let arity = match &receiver {
+            Value::Str(..) => StringBuiltin::from_name(field).map(|b| b.arity()),
+            Value::Number(..) => NumberBuiltin::from_name(field).map(|b| b.arity()),
+            Value::Array(..) => ArrayBuiltin::from_name(field).map(|b| b.arity()),
+            Value::Host(host) => match host.get() {
+                HostValue::ProcessCommand(..) => {
+                    ProcessCommandBuiltin::from_name(field).map(|b| b.arity())
+                }
+                HostValue::ProcessResult(..) => {
+                    ProcessResultBuiltin::from_name(field).map(|b| b.arity())
+                }
+            },
+            Value::Bool(..) | Value::Null => None,
+        };
+        if let Some(arity) = arity {
+            RuntimeError::check_method_arity(field, arity, args.args.len(), span)?;
+        }
         match receiver {
             Value::Str(ref s) => match StringBuiltin::from_name(field) {
                 Some(..) => self.eval_string_member_call(s, field, args, span),
